@@ -129,7 +129,7 @@ def gen_det_wf(rng: random.Random, d: int, ch, *, dmm=False, weights_max=1.0, we
         lo = max(lims) if lims else -30.0
         r = rng.random()
         if r < 0.12 and lims:
-            v = lo * (1 - 1e-9)
+            v = lo  # exactly at the (weighted) bottom limit
         elif r < 0.2:
             v = 0.0
         else:
